@@ -10,6 +10,7 @@ own mutex (MonitoredQueue._put/_get), so the log order IS the queue order.
 
 import queue as _real_queue
 import sys
+import functools
 import threading
 import time
 import traceback
@@ -59,7 +60,10 @@ def set_current(h):
 
 def _token_of(item):
     if isinstance(item, tuple) and len(item) == 4:
-        return getattr(item[0], "token", "?")
+        target = item[0]
+        target = getattr(target, "func", target)         # functools.partial
+        target = getattr(target, "__self__", target)     # bound method
+        return getattr(target, "token", "?")
     return "<sentinel>"
 
 
@@ -247,6 +251,33 @@ class Task(object):
         if self.exc is not None:
             raise self.exc
         return self.ret
+
+
+    def call(self, *args, **kwargs):
+        return self(*args, **kwargs)
+
+    def submitted_as(self):
+        """What is handed to enqueue: the task itself (a callable object with a __name__), a functools.partial or a
+        nameless callable object (neither has a __name__), or a bound method - chosen by the token."""
+        shape = hash(self.token) % 6
+        if shape == 2:
+            return functools.partial(self)
+        if shape == 3:
+            return self.call
+        if shape == 4:
+            return _Nameless(self)
+        return self
+
+
+class _Nameless(object):
+    """A callable object without a __name__."""
+
+    def __init__(self, task):
+        self.task = task
+        self.token = task.token
+
+    def __call__(self, *args, **kwargs):
+        return self.task(*args, **kwargs)
 
 
 class _FalsyTaskError(Exception):
@@ -505,7 +536,7 @@ class PoolRun(object):
         t = self.make_task(op)
         c = self.h.ev("enq_call", tok=t.token)
         try:
-            fut = self.pool.enqueue(t, *t.args, **t.kwargs)
+            fut = self.pool.enqueue(t.submitted_as(), *t.args, **t.kwargs)
         except BaseException as ex:  # noqa
             self.h.ev("enq_ret", tok=t.token, call=c, ok=False, exc=type(ex).__name__)
             return None
